@@ -5,6 +5,7 @@ import (
 	"go/constant"
 	"go/token"
 	"go/types"
+	"os"
 	"sort"
 	"strings"
 	"sync"
@@ -1347,7 +1348,7 @@ func (ex *Exec) wrapArith(st *State, site ssa.Instruction, t types.Type, r Term)
 	}
 	switch b.Kind() {
 	case types.Int, types.Int64:
-		if ex.con != nil && ex.con.Overflow {
+		if ex.con != nil && (ex.con.Overflow || os.Getenv("GOVC_OVERFLOW_ALL") != "") {
 			ex.oblige(st, "overflow", "", site, app(SBool, "in_i64", r), "integer arithmetic stays within int64")
 		} else {
 			ex.note("machine arithmetic treated as mathematical in %s", shortName(site.Parent().String()))
